@@ -20,3 +20,9 @@ Proof. reflexivity. Qed.
 
 Print Assumptions C09_caller_objects_untouched.
 Print Assumptions C09_bounds_are_fresh_copies.
+
+(* no function of helpers.py edits an argument in place - directly, through a local alias, through np.asarray / reshape / ravel (which may return the SAME array)
+   or through another helper (regenerated scan with transitive parameter-mutation summaries): a user's objective that hands task data to a library helper (the README's `distance(city_positions[a], city_positions[b])`) gets it back unchanged *)
+Theorem C09_helpers_do_not_mutate_arguments : gen_helpers_do_not_mutate_arguments = true.
+Proof. reflexivity. Qed.
+Print Assumptions C09_helpers_do_not_mutate_arguments.
